@@ -127,6 +127,12 @@ func ruleFeatureConsumers(c *core.Ctx, rule string, filter func(target string) b
 			if !cl.HasSQL || cl.Method == "ModelTableExpr" || cl.Method == "TableExpr" {
 				continue
 			}
+			if cl.Method == "Column" {
+				// a bare projection of the table's own columns into the model is what `*` (or no
+				// column list at all) already does: the value is passed through, null when the
+				// feature is off, and nothing is computed from it
+				continue
+			}
 			for _, alt := range cl.SQL {
 				toks, _ := sqlfe.Lex(alt)
 				for target, conds := range byTarget {
